@@ -536,7 +536,10 @@ impl Clone for %s {
         txt = self.r4_wildcards(txt)
         txt = self.r13_for_mut(txt)
         txt = self.r17_buffile(txt)
-        txt = self.r18_ghost_literals(txt)
+        c_ = self.contract_for(addr)
+        gi = dict((a[len('ghostinit:'):].split(':', 1)[0].strip(), a[len('ghostinit:'):].split(':', 1)[1].strip()) for a in (c_.attrs if c_ else []) if a.startswith('ghostinit:'))
+        txt = self.r18_ghost_literals(txt, gi)
+        txt = self.r27_mut_self(txt)
         txt = self.r19_zip_from(txt)
         txt = self.r20_read_exact(txt)
         txt = self.r22_range_bounds(txt)
@@ -700,14 +703,40 @@ impl Clone for %s {
             self.rules.hit('R17', n)
         return txt
 
-    def r18_ghost_literals(self, txt):
-        # R18: a struct given ghost fields: its literals (only in unverified constructors) get `Ghost::assume_new()`
+    def r18_ghost_literals(self, txt, inits=None):
+        # R18: a struct given ghost fields: its literals get `Ghost::assume_new()` (unverified constructors) or, where the
+        # contract of the function supplies them (`@attr ghostinit:<field>: <spec expr>`), `Ghost(<spec expr>)`
+        inits = inits or {}
         for name, fields in self.ghost_fields.items():
             def rep(m):
                 self.rules.hit('R18')
-                return m.group(0) + ' '.join('%s: Ghost::assume_new(),' % f for f in fields) + ' '
+                return m.group(0) + ' '.join(('%s: Ghost(%s),' % (f, inits[f])) if f in inits else ('%s: Ghost::assume_new(),' % f) for f in fields) + ' '
             txt = re.sub(r'\b%s\s*\{(?=\s*[a-z_][a-z0-9_]*\s*[:,])' % re.escape(name), rep, txt)
         return txt
+
+    def r27_mut_self(self, txt):
+        # R27: a `mut self` receiver (Verus: unsupported) -> `self` plus `let mut verif_self = self;` as first statement, and every
+        # `self` of the body becomes `verif_self`: the definition of a `mut` binding mode on a by-value parameter
+        m = re.search(r'\(\s*mut\s+self\s*(?=[,)])', txt)
+        if not m:
+            return txt
+        sg = [t for t in lex(txt) if t.kind not in ('ws', 'comment')]
+        depth, body_open = 0, None
+        for t in sg:
+            if t.start < m.start():
+                continue
+            if t.text in ('(', '['):
+                depth += 1
+            elif t.text in (')', ']'):
+                depth -= 1
+            elif t.text == '{' and depth == 0:
+                body_open = t; break
+        if body_open is None:
+            return txt
+        head = txt[:m.start()] + '(self' + txt[m.end():body_open.end]
+        body = re.sub(r'\bself\b', 'verif_self', txt[body_open.end:])
+        self.rules.hit('R27')
+        return head + ' let mut verif_self = self;' + body
 
     def _macro_calls(self, txt, names):
         """yield (start, end_of_paren, name, args_text, stmt_like) for NAME!( ... )"""
